@@ -31,12 +31,13 @@ import (
 //           its start value at any quiescent point
 // ---------------------------------------------------------------------------
 
-var c20ops = []string{"connect", "disconnect", "req-ok", "req-unsupported", "req-invalid", "req-multikey", "req-unfollowable-redirect", "move-group", "start-migration", "node-down", "node-up", "reset-backend", "remove-all-hosts", "add-hosts", "disconnect-with-request-in-flight", "cut-off-pipeline"}
+var c20ops = []string{"connect", "disconnect", "req-ok", "req-unsupported", "req-invalid", "req-multikey", "req-unfollowable-redirect", "move-group", "start-migration", "node-down", "node-up", "reset-backend", "remove-all-hosts", "add-hosts", "disconnect-with-request-in-flight", "cut-off-pipeline", "replace-hosts"}
 
 type c20snap struct {
 	cxTotal, cxDestroy, cxActive uint64
 	rqTotal, rqOK, rqFail        uint64
 	uRqTotal, uRqOK, uRqFail     uint64
+	uCxTotal, uCxDestroy, uCxAct uint64
 	cmds                         map[string][3]uint64
 }
 
@@ -46,6 +47,7 @@ func c20take(p *redisProc) c20snap {
 		cxTotal: d.CxTotal.Value(), cxDestroy: d.CxDestroyTotal.Value(), cxActive: d.CxActive.Value(),
 		rqTotal: d.RqTotal.Value(), rqOK: d.RqSuccessTotal.Value(), rqFail: d.RqFailureTotal.Value(),
 		uRqTotal: u.RqTotal.Value(), uRqOK: u.RqSuccessTotal.Value(), uRqFail: u.RqFailureTotal.Value(),
+		uCxTotal: u.CxTotal.Value(), uCxDestroy: u.CxDestroyTotal.Value(), uCxAct: u.CxActive.Value(),
 		cmds: map[string][3]uint64{},
 	}
 	for name, h := range p.cmdHdlrs {
@@ -167,6 +169,8 @@ func c20body(depth int) func() {
 				}
 			case "reset-backend":
 				m0.ResetConns()
+			case "replace-hosts":
+				p.OnSvcAllHostReplace([]*host.Host{host.New(cl.Nodes[0].Addr), host.New(cl.Nodes[1].Addr)})
 			case "remove-all-hosts":
 				p.OnSvcHostRemove([]*host.Host{host.New(cl.Nodes[0].Addr), host.New(cl.Nodes[1].Addr)})
 			case "add-hosts":
@@ -225,6 +229,15 @@ func c20judge(p *redisProc, start c20snap, hist []string, when string) {
 			}
 		}
 		sched.Fail("requests-total-differs-from-success-plus-failure / redis upstream / "+kind, fmt.Sprintf("%s: total %d success %d failure %d", where, t, s, f))
+	}
+	// upstream connections (if the service counts them at all): conserved like the downstream ones
+	if when != "all clients closed" {
+		if now.uCxAct != start.uCxAct {
+			sched.Fail("active-connection-gauge-not-zero / redis upstream / "+when, fmt.Sprintf("%s: gauge moved by %d", where, int64(now.uCxAct-start.uCxAct)))
+		}
+		if t, d := now.uCxTotal-start.uCxTotal, now.uCxDestroy-start.uCxDestroy; t != d {
+			sched.Fail("connections-total-differs-from-destroyed / redis upstream / "+when, fmt.Sprintf("%s: total %d destroyed %d", where, t, d))
+		}
 	}
 	var names []string
 	for n := range now.cmds {
